@@ -183,7 +183,10 @@ theorem le_total (a b : F64) (ha : legal a = true) (hb : legal b = true) :
     objLe a b = true ∨ objLe b a = true := objLe_total a b ha hb
 
 /-- Sorting, minimum and maximum of legal values never fail; the sorted sequence is an ordered
-permutation, the minimum / maximum are members that bound every element. -/
+permutation, the minimum / maximum are members that bound every element. (`sortObjs`, `minObjs`,
+`maxObjs` are stand-ins for std's `slice::sort` / `Iterator::min` / `max`: a stable insertion sort and
+folds that, like std, consult nothing but `Ord::cmp`; what the theorem really uses is `cmp_total`
+and the order laws. The real algorithms are exercised by the harness on lists of up to 120 elements.) -/
 theorem sort_min_max_safe {α : Type} (key : α → F64) (l : List α)
     (hl : ∀ y ∈ l, legal (key y) = true) :
     (∃ r, sortObjs key l = .ok r ∧ r.Perm l ∧
@@ -231,6 +234,17 @@ theorem pareto_refines_spec (a b : List F64) (ha : legalVec a = true) (hb : lega
 theorem pareto_eq_iff (a b : List F64) (ha : legalVec a = true) :
     paretoCmp a b = some .eq ↔ a = b := by
   rw [paretoCmp_eq, ← vecEq_iff a b (legalVec_noNan a ha)]
+  by_cases he : vecEq a b = true
+  · simp [he]
+  · simp only [he, Bool.false_eq_true, if_false, iff_false]
+    split
+    · simp
+    · cases anyLt a b <;> cases anyLt b a <;> simp
+
+/-- `Equal` is exactly the derived `==` of the wrapped vectors (same length, all coordinates `==`),
+for arbitrary (also illegal) vectors. -/
+theorem pareto_eq_iff_vecEq (a b : List F64) : paretoCmp a b = some .eq ↔ vecEq a b = true := by
+  rw [paretoCmp_eq]
   by_cases he : vecEq a b = true
   · simp [he]
   · simp only [he, Bool.false_eq_true, if_false, iff_false]
@@ -388,6 +402,20 @@ theorem mul_scalar_nan_ninf :
     mulC (ofBits bOne) (ofBits bNan) = .nan ∧ mulC (ofBits bOne) (ofBits bNegInf) = .ninf ∧
     divC (ofBits bOne) (ofBits bNan) (signBit bNan) = .nan ∧
     divC (ofBits bInf) (ofBits bNegInf) (signBit bNegInf) = .nan := by decide +kernel
+
+/-- ∀-form for a raw illegal scalar on the right of `*` and `/` (the operators take any `f64`):
+a NaN scalar always gives NaN; a −inf scalar gives −inf for every positive finite objective and for
++inf, NaN for 0; dividing +inf by ±inf gives NaN. -/
+theorem scalar_illegal_forall (a : F64) (s : Bool) :
+    mulC a .nan = .nan ∧ divC a .nan s = .nan ∧
+    (∀ k : Int, 0 < k → mulC (.fin k) .ninf = .ninf) ∧ mulC .pinf .ninf = .ninf ∧
+    mulC (.fin 0) .ninf = .nan ∧ divC .pinf .ninf s = .nan ∧
+    (∀ k : Int, divC (.fin k) .ninf s = .fin) := by
+  refine ⟨by cases a <;> rfl, by cases a <;> rfl, ?_, rfl, by simp [mulC, infMul], rfl, fun _ => rfl⟩
+  intro k hk
+  have h0 : k ≠ 0 := by omega
+  have h1 : ¬ k < 0 := by omega
+  simp [mulC, infMul, sgnInf, h0, h1]
 
 theorem arith_not_closed : ¬ arith_closed := by
   intro h
